@@ -41,7 +41,33 @@ def make_array(spec):
             arr = arr.transpose("channel", "time")
     else:
         arr = xr.DataArray(np.arange(n) + 1.0, dims=("time",), coords={"time": tc})
+    if spec.get("nans"):
+        vals = arr.values.astype(float).copy()
+        vals[(np.arange(vals.shape[arr.get_axis_num("time")]) % 3 == 1).reshape([-1 if d == "time" else 1 for d in arr.dims]) & np.ones(vals.shape, bool)] = np.nan
+        arr = arr.copy(data=vals)
     return arr, coords
+
+
+def embedded(ain, aout, fill):
+    """Is `ain` embedded in `aout` along time: same coordinates and samples (NaN-aware) at one contiguous block,
+    `fill` everywhere else?  Returns (offset, None) or (None, reason)."""
+    ci, co = ain.coords["time"].values, aout.coords["time"].values
+    vi, vo = ain.transpose("time", ...).values, aout.transpose("time", ...).values
+    n, m = len(ci), len(co)
+    if m < n:
+        return None, f"output has {m} samples, input {n}"
+    pos = np.where(co == ci[0])[0] if n else np.array([0])
+    if len(pos) != 1:
+        return None, "the first input coordinate does not occur exactly once in the output"
+    o = int(pos[0])
+    if o + n > m or not np.array_equal(co[o : o + n], ci):
+        return None, "input coordinates are not a contiguous block of the output coordinates"
+    if not np.array_equal(vo[o : o + n], vi, equal_nan=True):
+        return None, "samples at the original coordinates changed"
+    rest = np.concatenate([vo[:o], vo[o + n :]])
+    if rest.size and not np.all(rest == fill):
+        return None, "new samples do not all hold the fill value"
+    return o, None
 
 
 def data_index(arr):
@@ -63,7 +89,7 @@ def base(draw):
     step = draw(st.sampled_from(STEPS))
     step_attr = draw(st.booleans())
     n = draw(st.integers(1 if step_attr else 2, 60))
-    return {"start": draw(st.sampled_from(STARTS)), "step": step, "n": n, "step_attr": step_attr, "two_d": draw(st.booleans()), "time_last": draw(st.booleans())}
+    return {"start": draw(st.sampled_from(STARTS)), "step": step, "n": n, "step_attr": step_attr, "two_d": draw(st.booleans()), "time_last": draw(st.booleans()), "nans": False}
 
 
 @st.composite
@@ -126,6 +152,9 @@ def extend_case(draw):
     oa = draw(st.sampled_from([0.0, 0.0, 0.1, 0.5, 0.9]))
     ob = draw(st.sampled_from([0.0, 0.0, 0.1, 0.5, 0.9]))
     s.update({"a": a, "b": b, "oa": oa, "ob": ob, "left_closed": draw(st.booleans()), "right_closed": draw(st.booleans()), "none_start": draw(st.integers(0, 5)) == 0, "none_stop": draw(st.integers(0, 5)) == 0})
+    s["nans"] = draw(st.integers(0, 3)) == 0
+    s["then"] = draw(st.sampled_from([None, None, "extend_more", "crop_back_extend_less"]))
+    s["a2"], s["b2"] = draw(st.integers(1, 6)), draw(st.integers(1, 6))
     return s
 
 
@@ -159,19 +188,12 @@ def check_extend(spec, ctx):
     before = snapshot(arr)
     out = ctx.call(spec, f"extend_dim({kw})", arrays.extend_dim, arr, "time", **kw)
     ctx.unchanged(spec, "extend_dim: the input array", before, arr)
-    idx = data_index(out)
-    if idx is None:
-        ctx.fail("extend_dim scrambled data across channels", spec, None, None, kind="data")
-    idx = [int(v) for v in idx]
     oc = out.coords["time"].values
-    if idx.count(-1) + n != len(idx) or [v for v in idx if v != -1] != list(range(1, n + 1)):
-        ctx.fail(f"extend_dim lost or reordered original samples: {idx[:5]}..", spec, idx, None, kind="originals")
-    first = idx.index(1) if 1 in idx else 0
-    nl, nr = first, len(idx) - first - n
-    if idx[first : first + n] != list(range(1, n + 1)):
-        ctx.fail("original samples are not contiguous in the extended array", spec, idx, None, kind="originals")
-    if not np.array_equal(oc[first : first + n], coords):
-        ctx.fail("extend_dim moved original samples off their coordinates", spec, oc[first : first + n].tolist(), coords.tolist(), kind="coords")
+    first, why = embedded(arr, out, FILL)
+    if first is None:
+        ctx.fail(f"extend_dim: {why}", spec, oc.tolist()[:8], coords.tolist()[:8], kind="originals")
+    idx = [0] * len(oc)
+    nl, nr = first, len(oc) - first - n
     if not (left_lo <= nl <= left_hi):
         ctx.fail(f"extend_dim added {nl} samples before the axis, the interval [{lo}.. holds {left_lo}..{left_hi} lattice points (start={kw.get('start')}, left_closed={spec['left_closed']})", spec, nl, [left_lo, left_hi], kind="count_left")
     if not (right_lo <= nr <= right_hi):
@@ -180,12 +202,42 @@ def check_extend(spec, ctx):
     if len(oc) and np.max(np.abs(oc - ideal)) > 1e-6 * step:
         ctx.fail("new coordinates are off the axis lattice", spec, oc.tolist()[:5], ideal.tolist()[:5], kind="lattice")
 
+    # second operation on the RESULT of the first (the result carries attributes written by extend_dim)
+    then = spec.get("then")
+    if then and len(oc) >= 2:
+        if then == "crop_back_extend_less" and nr >= 2:
+            mid = ctx.call(spec, "crop_dim(result back to the original range)", arrays.crop_dim, out, "time", start=float(coords[0]), stop=float(coords[-1]), right_closed=True)
+            k = nr - 1  # extend again, to a stop BELOW the first stop
+            stop2 = float(coords[-1] + (k + 0.5) * step)
+            out2 = ctx.call(spec, "extend_dim(cropped result, smaller stop)", arrays.extend_dim, mid, "time", stop=stop2, fill_value=FILL)
+            o2, why2 = embedded(mid, out2, FILL)
+            if o2 is None:
+                ctx.fail(f"crop then extend: {why2}", spec, None, None, kind="chained")
+            elif len(out2.coords["time"]) - o2 - len(mid.coords["time"]) != k:
+                ctx.fail(f"crop then extend to {stop2}: {len(out2.coords['time']) - o2 - len(mid.coords['time'])} samples added after the axis, the interval holds {k} lattice points", spec, None, k, kind="chained")
+        elif then == "extend_more":
+            a2, b2 = spec["a2"], spec["b2"]
+            start2 = float(oc[0] - (a2 + 0.5) * step)
+            stop2 = float(oc[-1] + (b2 + 0.5) * step)
+            out2 = ctx.call(spec, "extend_dim(result, wider range)", arrays.extend_dim, out, "time", start=start2, stop=stop2, fill_value=FILL)
+            o2, why2 = embedded(out, out2, FILL)
+            c2 = out2.coords["time"].values
+            if o2 is None:
+                ctx.fail(f"second extend_dim: {why2}", spec, c2.tolist()[:6], oc.tolist()[:6], kind="chained")
+            else:
+                if o2 != a2 or len(c2) - o2 - len(oc) != b2:
+                    ctx.fail(f"second extend_dim added {o2} / {len(c2) - o2 - len(oc)} samples, the interval holds {a2} / {b2} lattice points", spec, [o2, len(c2) - o2 - len(oc)], [a2, b2], kind="chained")
+                ideal2 = coords[0] + (np.arange(len(c2)) - (o2 + first)) * step
+                if np.max(np.abs(c2 - ideal2)) > 1e-6 * step:
+                    ctx.fail("second extend_dim: new coordinates are off the axis lattice", spec, c2.tolist()[:5], ideal2.tolist()[:5], kind="chained")
+
 
 @st.composite
 def width_case(draw):
     s = draw(base())
     n = s["n"]
     s.update({"width": draw(st.one_of(st.integers(1, 3 * n + 2), st.sampled_from([n, n + 1, max(1, n - 1), 129]))), "position": draw(st.sampled_from(["start", "center", "end"])), "fn": draw(st.sampled_from(["adjust", "adjust", "specific"]))})
+    s["nans"] = draw(st.integers(0, 3)) == 0
     return s
 
 
@@ -210,29 +262,23 @@ def check_width(spec, ctx):
     ctx.unchanged(spec, "adjust_dim_width: the input array", before, arr)
     if out.sizes["time"] != w:
         ctx.fail(f"width {w} requested on an axis of {n} samples (step {step}, position {pos}): got {out.sizes['time']} samples", spec, int(out.sizes["time"]), w, kind="width")
-    idx = data_index(out)
-    if idx is None:
-        ctx.fail("width adjustment scrambled data across channels", spec, None, None, kind="data")
-    idx = [int(v) for v in idx]
     oc = out.coords["time"].values
     if w >= n:
         extra = w - n
         offs = {"start": [0], "end": [extra], "center": sorted({extra // 2, extra - extra // 2})}[pos]
-        ok = any(idx[o : o + n] == list(range(1, n + 1)) and all(v == -1 for v in idx[:o] + idx[o + n :]) for o in offs)
-        if not ok:
-            ctx.fail(f"extending to width {w} at '{pos}': original data not where requested (index pattern {idx[:6]}..{idx[-6:]})", spec, idx, None, kind="placement")
-        o = idx.index(1) if 1 in idx else 0
+        o, why = embedded(arr, out, FILL)
+        if o is None or o not in offs:
+            ctx.fail(f"extending to width {w} at '{pos}': original data not where requested ({why or 'offset ' + str(o)})", spec, o, offs, kind="placement")
         ideal = coords[0] + (np.arange(w) - o) * step
         if np.max(np.abs(oc - ideal)) > 1e-6 * step:
             ctx.fail("extended axis is not regular / original coordinates moved", spec, oc.tolist()[:6], ideal.tolist()[:6], kind="lattice")
     else:
         cut = n - w
         offs = {"start": [0], "end": [cut], "center": sorted({cut // 2, cut - cut // 2, max(0, n // 2 - w // 2)})}[pos]
-        ok = any(idx == list(range(o + 1, o + w + 1)) for o in offs)
+        vi, vo = arr.transpose("time", ...).values, out.transpose("time", ...).values
+        ok = any(np.array_equal(vo, vi[o : o + w], equal_nan=True) and np.array_equal(oc, coords[o : o + w]) for o in offs)
         if not ok:
-            ctx.fail(f"cropping to width {w} at '{pos}' kept samples {idx[:4]}..{idx[-4:]}", spec, idx, None, kind="placement")
-        if ok and not np.array_equal(oc, coords[idx[0] - 1 : idx[0] - 1 + w]):
-            ctx.fail("cropped data moved off its coordinates", spec, None, None, kind="coords")
+            ctx.fail(f"cropping to width {w} at '{pos}': the result is not the requested block of the input (allowed offsets {offs})", spec, oc.tolist()[:6], None, kind="placement")
 
 
 @st.composite
